@@ -682,11 +682,14 @@ func (i *c13Inst) Apply(op int) (string, []rep.Violation) {
 		case "create":
 			i.doc.GetStyleManager().CreateCustomStyle(o.id, "Custom "+o.id, c13StyleType[o.id], "Normal")
 			i.api[o.id] = true
+			// what the call asked for: expected also when the registry silently did not take it
+			i.apiFP[o.id] = c13StyleFP{Type: string(c13StyleType[o.id]), Name: "Custom " + o.id, BasedOn: "Normal"}
 			i.lastNT = true
 		case "addstyle":
 			i.doc.GetStyleManager().AddStyle(&style.Style{Type: string(c13StyleType[o.id]), StyleID: o.id, CustomStyle: true,
 				Name: &style.StyleName{Val: "Custom bold " + o.id}, RunPr: &style.RunProperties{Bold: &style.Bold{}}})
 			i.api[o.id] = true
+			i.apiFP[o.id] = c13StyleFP{Type: string(c13StyleType[o.id]), Name: "Custom bold " + o.id, Bold: true}
 			i.lastNT = true
 		case "quick":
 			existed := i.doc.GetStyleManager().StyleExists(o.id)
@@ -715,6 +718,7 @@ func (i *c13Inst) Apply(op int) (string, []rep.Violation) {
 			i.doc.GetStyleManager().AddStyle(&style.Style{Type: string(c13StyleType[o.id]), StyleID: o.id, CustomStyle: true,
 				Name: &style.StyleName{Val: "Derived " + o.id}, BasedOn: &style.BasedOn{Val: base}})
 			i.api[o.id] = true
+			i.apiFP[o.id] = c13StyleFP{Type: string(c13StyleType[o.id]), Name: "Derived " + o.id, BasedOn: base}
 			i.lastNT = true
 		case "editstyle":
 			st := i.doc.GetStyleManager().GetStyle(o.id)
